@@ -170,6 +170,11 @@ def configs(tier):
     for fs in ('start', 'task', 'noinit'):
         for pos in (0, 1):
             out.append(dict(mode='failstart', fail=fs, pos=pos))
+    # three releases of an application over one storage: the second one has no persistent block
+    # (none at all / persistence switched off): entries of blocks that no longer exist are
+    # removed at start all the same, reserved entries are kept
+    for variant in ('no-capable-block', 'persistence-off', 'other-block-only'):
+        out.append(dict(mode='releases', variant=variant))
     # restart with start-up traffic: another block's first output sends an event (plain, filtered
     # out, conditional resolving to 'no event') to the persistent block before / after its restore
     for kind in BLOCKS[:5]:
@@ -410,8 +415,61 @@ def default_state(kind):
             'InputExp': (None, None)}[kind]
 
 
+def run_releases(cfg, acc):
+    storage = SnapshotDict({'edzed-foo': 'keep'})
+    viol = []
+
+    def release(n, persistent_cnt, other=False):
+        with Sim(base_unix_us=BASE_US + n * 100_000_000) as sim:
+            if cfg['variant'] != 'no-capable-block' or persistent_cnt:
+                cnt = edzed.Counter('cnt', persistent=persistent_cnt, initdef=0)
+            else:
+                cnt = None
+                edzed.Not('n').connect(edzed.Const(1))
+            if other:
+                edzed.Input('other', persistent=True, initdef='o')
+            sim.circuit.set_persistent_data(storage)
+            res = {}
+
+            async def driver():
+                task = asyncio.create_task(sim.circuit.run_forever())
+                await sim.circuit.wait_init()
+                res['first'] = None if cnt is None else cnt.output
+                res['keys'] = sorted(storage)
+                if cnt is not None:
+                    edzed.ExtEvent(cnt, 'put').send(77)
+                await stop(sim.circuit)
+                del task
+            sim.run(driver())
+        acc.execs += 1
+        return res
+    r1 = release(1, True)
+    key = "<Counter 'cnt'>"
+    if storage.get(key) != 77:
+        viol.append(('storage-differs-from-state', f"release 1: storage {dict(storage)}"))
+    r2 = release(2, False, other=cfg['variant'] == 'other-block-only')
+    if key in r2['keys']:
+        viol.append(('stale-entry-not-removed',
+                     f"release 2 ({cfg['variant']}): the entry of the block that is not persistent any "
+                     f"more is still in the storage after the start: {r2['keys']}"))
+    if storage.get('edzed-foo') != 'keep':
+        viol.append(('reserved-entry-removed', f"release 2: storage {dict(storage)}"))
+    r3 = release(3, True)
+    if r3['first'] != 0:
+        viol.append(('stale-state-restored',
+                     f"release 3: the counter starts with {r3['first']!r} although release 2 "
+                     f"({cfg['variant']}) did not use its entry; expected the initdef 0"))
+    acc.outcome(('releases', cfg['variant'], repr(r2['keys']), r3['first']))
+    acc.state(('releases', cfg['variant']))
+    for sig, msg in viol:
+        acc.violation(f"C06:{sig}:releases", msg, cfg=cfg)
+    return acc
+
+
 def run_config(cfg):
     acc = Acc()
+    if cfg['mode'] == 'releases':
+        return run_releases(cfg, acc)
     if cfg['mode'] == 'failstart':
         return run_failstart(cfg, acc)
     if cfg['mode'] == 'traffic':
